@@ -22,7 +22,7 @@ C05_RULES = {
     "join_returned_before_closure_finished", "join_none_but_closure_returned",
     "join_some_but_closure_panicked", "join_wrong_value", "effects_not_visible_after_join",
     "no_happens_before_exit_to_join", "hang_in_join", "hang_in_spawn", "slot_read_before_thread_exit",
-    "handle_operation_never_returned_join", "crash",
+    "handle_operation_never_returned_join", "crash", "closure_capture_misplaced_or_corrupted",
 }
 # everything else belongs to C06
 
@@ -541,6 +541,22 @@ def normalise(run):
                 t.arr_h.append(("done", e["seq"]))
                 emit(t, {"e": "ret", "op": "drop", "res": "-", "val_ok": True, "eff_ok": True, "hb": False}, e)
             h_cur = None
+        elif ev == "cap":
+            t = threads.get(e["k"])
+            if t:
+                t.caps = getattr(t, "caps", 0) + 1
+                if not e["ok"]:
+                    emit(t, {"e": "capbad"}, e)
+                else:
+                    t.raw.append(e)
+        elif ev == "vpanic":
+            # the destructor of the return value panics while the runtime drops it on the thread: from
+            # here on this is a panicking thread (its closure box stays, like after any panic)
+            t = threads.get(e["k"])
+            if t:
+                emit(t, {"e": "fin", "how": "panic"}, e)
+                batch_panicked += 1
+                panicked_since_base += 1
         elif ev == "vdrop":
             if e.get("zst"):
                 # a zero-sized value cannot say whose it is: the task that runs the destructor does -
@@ -667,7 +683,7 @@ def normalise(run):
                      "whole": s["whole"], "disarmed": s["disarmed"]})
         for r in t.h_unmaps:
             emit(t, {"e": "rel", "r": "stack", "by": "H"})
-        emit(t, {"e": "end", "kept": t.spawn_ok is True and t.op is None, "sys": t.stack_known, "dv": t.ty in ("dv", "zd", "a64d", "arrd"),
+        emit(t, {"e": "end", "kept": t.spawn_ok is True and t.op is None, "sys": t.stack_known, "dv": t.ty in ("dv", "zd", "a64d", "arrd", "pd"),
                  "quiet": quiet})
     return order, batches, info
 
